@@ -79,6 +79,9 @@ func c03Cases() []c03Case {
 			}
 		}
 	}
+	for policy := 0; policy <= 4; policy++ {
+		out = append(out, c03Case{12, "s", "cert", "ecdsa", false, false, policy, "resume-after-unfinished-key-exchange"})
+	}
 	for _, auth := range []string{"psk", "ecdhepsk"} {
 		for _, honest := range []string{"c", "s"} {
 			for _, dev := range c03DevsPSK {
@@ -229,6 +232,12 @@ func c03Run(rc *RunCtx, params any) {
 	s := rc.S
 	rc.R.Class = fmt.Sprintf("v%d/%s/%s/%s", p.Ver, p.Honest, p.Auth, p.Dev)
 	rc.R.NonTriv = p.Dev != "none"
+	if p.Dev == "resume-after-unfinished-key-exchange" {
+		rc.Note("proto", "dtls12")
+		c03ResumeUnfinished(rc, p)
+
+		return
+	}
 	var cspec, sspec EpSpec
 	env := &Env{Extra: map[string][]dtls.Option{}}
 	if p.Auth == "cert" {
@@ -494,4 +503,165 @@ func init() {
 		NewParams: func() any { return &C03Params{} },
 		Run:       c03Run,
 	})
+}
+
+// ---- resumption of a session whose client never authenticated --------------------------------
+
+// fixedStore hands out one session for every key (the rogue client's "store").
+type fixedStore struct{ sess dtls.Session }
+
+func (f *fixedStore) Set([]byte, dtls.Session) error { return nil }
+func (f *fixedStore) Get([]byte) (dtls.Session, error) {
+	return dtls.Session{ID: append([]byte(nil), f.sess.ID...), Secret: append([]byte(nil), f.sess.Secret...)}, nil
+}
+func (f *fixedStore) Del([]byte) error { return nil }
+
+// c03ResumeUnfinished: a rogue DTLS 1.2 client without the required certificate performs the key
+// exchange and then goes silent - no Certificate, no CertificateVerify, no Finished - and, on a
+// second connection, offers the session ID of that unfinished handshake for resumption. It knows
+// the master secret (it took part in the key exchange); what it never did is authenticate. The
+// rogue is assembled from the real library: a man in the middle removes Certificate,
+// CertificateVerify and everything of epoch 1 from the first client's flight and renumbers the
+// ClientKeyExchange into the gap; the second client's store hands out the session ID from the
+// wire and the master secret from the first client's key log. Extended master secret is off so
+// that the secret does not depend on a transcript the two halves of the rogue do not share (a
+// rogue with its own stack has no such limitation).
+func c03ResumeUnfinished(rc *RunCtx, p *C03Params) {
+	s := rc.S
+	cspec, sspec := certPair12(suiteECDSAGCM, "srv-ecdsa")
+	cspec.VerifyPeer, cspec.UseRoots, cspec.ServerName = true, 1, ServerName
+	cspec.Cert = "cli-ecdsa"
+	cspec.EMS, sspec.EMS = 2, 2
+	sspec.ClientAuth = p.Policy
+	if p.Policy >= int(dtls.VerifyClientCertIfGiven) {
+		sspec.UseRoots, sspec.VerifyPeer = 1, true
+	}
+	sspec.SkipHelloVerify = false
+	sstore := NewSimStore(s, "sstore", 0)
+	env := &Env{Stores: map[string]dtls.SessionStore{"sstore": sstore}, KeyLogs: map[string]*KeyLog{}, Extra: map[string][]dtls.Option{}}
+	sspec.Store = "sstore"
+	n := NewSimNet(s, p.Rules)
+	pair, err := NewPairNamed(s, n, cspec, sspec, env, "c", "s")
+	if err != nil {
+		rc.Violate("harness", "config: %v", err)
+
+		return
+	}
+	certSeq := -1
+	n.Rewrite = func(em *Emission) []byte {
+		if em.Ep != "c" {
+			return em.Data
+		}
+		recs, perr := ParseDatagram(em.Data, 0)
+		if perr != nil {
+			return em.Data
+		}
+		var out []byte
+		for _, r := range recs {
+			if r.Epoch != 0 {
+				continue // Finished: never sent
+			}
+			keep := true
+			raw := append([]byte(nil), r.Raw...)
+			if r.Type == CTHandshake {
+				for _, f := range r.Hs {
+					switch f.Type {
+					case HTCertificate:
+						if certSeq < 0 {
+							certSeq = int(f.MsgSeq)
+						}
+						keep = false
+					case HTCertificateVerify:
+						keep = false
+					case HTClientKeyExchange:
+						if certSeq >= 0 && len(r.Hs) == 1 {
+							putU16(raw[r.HdrLen+4:], certSeq)
+						}
+					}
+				}
+			}
+			if keep {
+				out = append(out, raw...)
+			}
+		}
+		if len(out) == 0 {
+			s.Fault("rogue-withholds-message")
+
+			return nil
+		}
+
+		return out
+	}
+	pair.StartHandshakes(40 * time.Second)
+	stored := func() bool { return len(sstore.Keys()) > 0 }
+	s.Run(func() bool { return stored() || pair.SHs.Done }, 20*time.Second)
+	if !stored() {
+		// the server kept nothing from the unfinished handshake: nothing to resume from
+		s.Probe("unfinished-handshake-left-no-session")
+		pair.Teardown()
+
+		return
+	}
+	s.Probe("unfinished-handshake-left-a-session")
+	// what the rogue knows: the session ID from the ServerHello on the wire, the master secret it computed
+	col := NewHsCollector()
+	for _, em := range n.Emits {
+		col.Feed(em, 0)
+	}
+	shs, chs := col.Of("s", HTServerHello), col.Of("c", HTClientHello)
+	if len(shs) == 0 || len(chs) == 0 {
+		rc.Violate("harness", "hellos not on the wire")
+		pair.Teardown()
+
+		return
+	}
+	sh, _ := ParseServerHello(shs[len(shs)-1].Body)
+	ch, _ := ParseClientHello(chs[len(chs)-1].Body)
+	ms := env.KeyLogs["c"].Master(ch.Random)
+	if len(ms) == 0 || len(sh.SessionID) == 0 {
+		rc.Note("rogue-lacks-material", fmt.Sprintf("master secrets %d, session id %d bytes", len(ms), len(sh.SessionID)))
+		pair.Teardown()
+
+		return
+	}
+	// second connection while the first is still waiting for the client's Finished
+	c2, s2 := cspec, sspec
+	c2.Cert = ""
+	c2.Store = "rogue"
+	env2 := &Env{Stores: map[string]dtls.SessionStore{"sstore": sstore, "rogue": &fixedStore{dtls.Session{ID: sh.SessionID, Secret: ms[len(ms)-1]}}}, Extra: map[string][]dtls.Option{}}
+	n2 := NewSimNet(s, NetRules{})
+	pair2, err := NewPairNamed(s, n2, c2, s2, env2, "c2", "s2")
+	if err != nil {
+		rc.Violate("harness", "config: %v", err)
+		pair.Teardown()
+
+		return
+	}
+	pair2.StartHandshakes(30 * time.Second)
+	s.Run(pair2.BothDone, time.Minute)
+	abbreviated := true
+	for _, em := range n2.Emits {
+		if recs, perr := ParseDatagram(em.Data, 0); perr == nil {
+			for _, r := range recs {
+				for _, f := range r.Hs {
+					if f.Type == HTServerKeyExchange || f.Type == HTCertificateRequest {
+						abbreviated = false
+					}
+				}
+			}
+		}
+	}
+	if abbreviated {
+		s.Probe("server-resumed-the-unfinished-session")
+	}
+	mustFail := dtls.ClientAuthType(p.Policy) == dtls.RequireAnyClientCert || dtls.ClientAuthType(p.Policy) == dtls.RequireAndVerifyClientCert
+	if pair2.SHs.Done && pair2.SHs.Err == nil && mustFail {
+		rc.Violate(fmt.Sprintf("established-without-credential:v12:s:%s", p.Dev), "server with client-auth policy %d reports a successful (abbreviated=%v) handshake with a client that never presented a certificate: it resumed session %x, stored during an earlier handshake in which the client sent ClientKeyExchange and then nothing - no Certificate, no CertificateVerify, no Finished", p.Policy, abbreviated, sh.SessionID)
+	} else if mustFail {
+		s.Probe("must-fail:" + p.Dev)
+	} else {
+		s.Probe("may-succeed:" + p.Dev)
+	}
+	pair2.Teardown()
+	pair.Teardown()
 }
